@@ -436,6 +436,7 @@ DEFAULT_WEIGHTS = {
     "client_cancel": 2, "server_cancel": 2, "client_chan_close": 2, "server_chan_close": 2,
     "client_conn_close": 0.6, "server_conn_close": 0.6, "violation": 1.0, "write": 3, "drop": 1.0, "poll": 2,
     "stale_event": 1.0, "heartbeat": 1, "pending_send": 2, "throttle": 1,
+    "stray_closeok": 0.7, "reply_then_close": 0.7,
 }
 
 
@@ -618,13 +619,34 @@ class Session(Gen):
             self.op("send %s send %s" % (h, hx(amqp.client_only_samples(self.handles[h])["basic.qos"])))
             self.op("ev %d" % self.handles[h])
         self.op("dump")
+        # what is still in flight from the server when the client's Close goes out: it crossed the
+        # Close on the wire and must be handled as usual until CloseOk arrives
+        if self.rng.random() < 0.4:
+            for _ in range(self.rng.randint(1, 3)):
+                k = self.rng.random()
+                if k < 0.4 and self.consumers:
+                    self.a_deliver()
+                elif k < 0.55 and self.consumers:
+                    self.a_server_cancel()
+                elif k < 0.7 and self.handles:
+                    self.a_server_chan_close()
+                elif k < 0.8:
+                    self.a_confirm()
+                elif k < 0.9:
+                    self.feed([heartbeat()])
+                else:
+                    self.a_return()
         tail = [self.use(conn_close_ok())]
         if self.rng.random() < 0.3:
             tail.append(self.use(heartbeat()))
         r = self.rng.random()
-        if r < 0.35:
+        if r < 0.15:
+            # the transport dies before the server's CloseOk: the close did NOT complete
+            self.op("feed " + self.rng.choice(["eof", "err", "err:timedout", "err:reset"]))
+            self.op("ev stream r")
+        elif r < 0.45:
             # the server hangs up right after CloseOk: both arrive in one read
-            self.op("feed c:" + b"".join(f.bytes for f in tail).hex() + " " + self.rng.choice(["eof", "err", "err:timedout", "err:interrupted"]))
+            self.op("feed c:" + b"".join(f.bytes for f in tail).hex() + " " + self.rng.choice(["eof", "err", "err:timedout", "err:interrupted", "err:reset", "err:aborted"]))
             self.op("ev stream r")
         else:
             self.feed(tail)
@@ -638,6 +660,35 @@ class Session(Gen):
             tail.append(heartbeat())
         self.feed(tail)
         self.closed = True
+
+    def a_stray_closeok(self):
+        """Channel.CloseOk for a channel that is not open (never was, or no longer): tolerated by the
+        client (closing is racy) and without any effect - in particular on which ids are free."""
+        open_ids = set(self.handles.values())
+        cands = [c for c in list(range(1, self.chmax + 4)) + [self.chmax + 1, 2 * self.chmax + 5] if c not in open_ids]
+        if cands:
+            self.feed([chan_close_ok(self.rng.choice(cands))])
+
+    def a_reply_then_close(self):
+        """A call's reply and an unrelated server Channel.Close (or Connection.Close) arrive back to
+        back, before the caller has taken the reply: both have room in the reply queue."""
+        h = self.some_handle()
+        if not h:
+            return
+        ch = self.handles[h]
+        self.op("send %s send %s" % (h, hx(amqp.client_only_samples(ch)["queue.declare"])))
+        self.op("ev %d" % ch)
+        if self.rng.random() < 0.75:
+            self.feed([queue_declare_ok(ch, "q", 1, 2), chan_close(ch, self.rng.choice([404, 406]), "gone")])
+            self.op("recv %s -" % h)
+            self.op("recv %s -" % h)
+            del self.handles[h]
+            self.alloc.remove(ch)
+        else:
+            self.feed([queue_declare_ok(ch, "q", 1, 2), conn_close(320, "CONNECTION_FORCED")])
+            self.op("recv %s -" % h)
+            self.op("recv %s -" % h)
+            self.closed = True
 
     def a_violation(self):
         rng = self.rng
